@@ -9,6 +9,8 @@ import (
 	"encoding/binary"
 	"encoding/json"
 	"fmt"
+	"github.com/klauspost/compress/snappy"
+	"github.com/klauspost/compress/zstd"
 	"hash/crc32"
 	"sort"
 	"strings"
@@ -40,17 +42,18 @@ type FileObs struct {
 }
 
 type History struct {
-	CompSeen map[bs.CompressionType]bool // every compression an engine of this history was configured with
-	PadBytes int                         // when > 0 every generated row gets a compressible filler of up to this many bytes
-	Env      *Env
-	TM       tokMode
-	PartMode string
-	Keys     []string
-	Rows     map[int]*StoredRow // acknowledged rows
-	Order    []int
-	Ops      []string
-	nextID   int
-	Ext      map[int]bool // rows written by the external writer
+	ExtCompression bs.CompressionType          // compression the next external file is written with ("" = none)
+	CompSeen       map[bs.CompressionType]bool // every compression an engine of this history was configured with
+	PadBytes       int                         // when > 0 every generated row gets a compressible filler of up to this many bytes
+	Env            *Env
+	TM             tokMode
+	PartMode       string
+	Keys           []string
+	Rows           map[int]*StoredRow // acknowledged rows
+	Order          []int
+	Ops            []string
+	nextID         int
+	Ext            map[int]bool // rows written by the external writer
 }
 
 // allExternal reports whether every row id belongs to an externally written file.
@@ -84,7 +87,7 @@ func partitionFunc(mode string) bs.PartitionFunc {
 func genHistConfig(r Rng) (bs.BloomSearchEngineConfig, tokMode, string, []string) {
 	cfg := bs.DefaultBloomSearchEngineConfig()
 	tm := tokModes[0]
-	if r.Chance(0.3) {
+	if r.Chance(0.45) {
 		tm = pick(r, tokModes)
 	}
 	cfg.Tokenizer = tm.fn
@@ -249,7 +252,12 @@ func (h *History) externalFile(r Rng, rep *Report) {
 			parts[sr.PID] = append(parts[sr.PID], sr)
 		}
 	}
+	h.ExtCompression = pick(r, []bs.CompressionType{bs.CompressionNone, bs.CompressionNone, bs.CompressionSnappy, bs.CompressionZstd})
+	if h.CompSeen != nil {
+		h.CompSeen[normComp(h.ExtCompression)] = true
+	}
 	h.writeExternal(parts, func() bool { return r.Chance(0.5) }, rep)
+	h.ExtCompression = ""
 }
 
 // writeExternal writes the given rows (grouped by partition) as an external-writer file.
@@ -284,11 +292,27 @@ func (h *History) writeExternal(parts map[string][]*StoredRow, withHash func() b
 			}
 			all = append(all, sr)
 		}
-		buf.Write(block.Bytes())
-		b := bs.DataBlockMetadata{RowDataOffset: start, RowDataSize: block.Len(), Rows: len(parts[pid]), PartitionID: pid, MinMaxIndexes: mm,
-			Compression: bs.CompressionNone, UncompressedSize: block.Len()}
+		stored := block.Bytes()
+		comp := bs.CompressionNone
+		switch h.ExtCompression {
+		case bs.CompressionSnappy:
+			var cb bytes.Buffer
+			w := snappy.NewBufferedWriter(&cb)
+			w.Write(block.Bytes())
+			w.Close()
+			stored, comp = cb.Bytes(), bs.CompressionSnappy
+		case bs.CompressionZstd:
+			var cb bytes.Buffer
+			w, _ := zstd.NewWriter(&cb, zstd.WithEncoderConcurrency(1))
+			w.Write(block.Bytes())
+			w.Close()
+			stored, comp = cb.Bytes(), bs.CompressionZstd
+		}
+		buf.Write(stored)
+		b := bs.DataBlockMetadata{RowDataOffset: start, RowDataSize: len(stored), Rows: len(parts[pid]), PartitionID: pid, MinMaxIndexes: mm,
+			Compression: comp, UncompressedSize: block.Len()}
 		if withHash() {
-			b.RowDataHash = crc32.Checksum(block.Bytes(), crc32.MakeTable(crc32.Castagnoli))
+			b.RowDataHash = crc32.Checksum(stored, crc32.MakeTable(crc32.Castagnoli))
 			b.HasRowDataHash = true
 		}
 		meta.DataBlocks = append(meta.DataBlocks, b)
